@@ -743,6 +743,248 @@ def build_catalogue() -> Catalogue:
         )
     )
 
+    # ---------------------------------------------------------------- fine-grained utility operations
+    # One call per operation, with neighbours that differ in exactly one argument (band, power flag, target
+    # resolution, domain extent, dealiasing fraction, forced mode, ...): what a memo keyed on too little, or
+    # published in two steps, confuses. They share the group of their dimension so that they meet in the same runs.
+    m = ex.metrics
+    sp = ex.spectral
+    nf = ex.nonlin_fun
+
+    def add(key, fn, exports, group, cost=1):
+        cat.add(Op(key, fn, tuple(exports), group, cost=cost))
+
+    for d in (1, 2, 3):
+        n = _N[d][0]
+        ns = _N[d] if d < 3 else (6, 5)
+        g = f"fine{d}"
+
+        # metrics (C16)
+        def ab(d=d, n=n):
+            return _field(2, d, n), _field(2, d, n, 1)
+
+        for name in ("MAE", "MSE", "RMSE", "nMAE", "nMSE", "nRMSE", "sMAE", "sMSE", "sRMSE", "correlation"):
+            add(f"metric:{name}[D={d}]", lambda pool, name=name, ab=ab: getattr(m, name)(*ab()) if name == "correlation" else getattr(m, name)(*ab(), domain_extent=_L), [f"exponax.metrics.{name}"], g)
+        for low, high in ((None, None), (1, 3), (1, 2), (2, 3), (0, 2)):
+            for name in ("fourier_MSE", "fourier_nRMSE", "fourier_MAE", "H1_MSE", "H1_nRMSE"):
+                add(
+                    f"metric:{name}[D={d},band={low}-{high}]",
+                    lambda pool, name=name, ab=ab, low=low, high=high: getattr(m, name)(*ab(), domain_extent=_L, low=low, high=high),
+                    [f"exponax.metrics.{name}"],
+                    g,
+                )
+        for order in (1.0, 2.0):
+            add(f"metric:fourier_norm[D={d},deriv={order}]", lambda pool, ab=ab, order=order: m.fourier_norm(*ab(), mode="normalized", domain_extent=_L, derivative_order=order), ["exponax.metrics.fourier_norm"], g)
+        add(f"metric:spatial_norm[D={d}]", lambda pool, ab=ab: m.spatial_norm(*ab(), mode="symmetric", domain_extent=_L, inner_exponent=1.0), ["exponax.metrics.spatial_norm"], g)
+        add(f"metric:mean_metric[D={d}]", lambda pool, ab=ab: m.mean_metric(m.nRMSE, jnp.stack(ab()), jnp.stack(ab()[::-1])), ["exponax.metrics.mean_metric"], g)
+
+        # radial spectrum (C17)
+        for nn in ns:
+            for power in (True, False):
+                for binning in ("sum", "average"):
+                    add(
+                        f"spectrum[D={d},N={nn},power={power},{binning}]",
+                        lambda pool, d=d, nn=nn, power=power, binning=binning: ex.get_spectrum(_field(2, d, nn), power=power, radial_binning=binning),
+                        ["exponax.get_spectrum"],
+                        g,
+                    )
+
+        # interpolation and resolution changes (C15)
+        pairs = {1: ((16, 20), (16, 19), (15, 19), (16, 12), (15, 11), (16, 17), (15, 16)), 2: ((8, 12), (8, 11), (9, 13), (9, 6), (8, 9)), 3: ((6, 8), (6, 5), (5, 7))}[d]
+        for n_old, n_new in pairs:
+            for oddball in (True, False):
+                add(
+                    f"resample[D={d},{n_old}->{n_new},oddball_zero={oddball}]",
+                    lambda pool, d=d, n_old=n_old, n_new=n_new, oddball=oddball: ex.map_between_resolutions(_field(2, d, n_old), n_new, oddball_zero=oddball),
+                    ["exponax.map_between_resolutions"],
+                    g,
+                )
+        for nn in ns:
+            for L_ in (_L, 1.0):
+                add(
+                    f"interpolate[D={d},N={nn},L={L_}]",
+                    lambda pool, d=d, nn=nn, L_=L_: jax.vmap(ex.FourierInterpolator(_field(2, d, nn), domain_extent=L_))(jnp.asarray([[0.3, 1.1, 2.2][:d], [2.9, 0.0, 0.7][:d]])),
+                    ["exponax.FourierInterpolator"],
+                    g,
+                )
+
+        # grids, wavenumbers, operators (C04, C05)
+        for nn in ns:
+            for L_ in (_L, 1.0, 2.0):
+                add(f"grid[D={d},N={nn},L={L_}]", lambda pool, d=d, nn=nn, L_=L_: (ex.make_grid(d, L_, nn), ex.make_grid(d, L_, nn, full=True), ex.make_grid(d, L_, nn, zero_centered=True)), ["exponax.make_grid"], g)
+                add(f"derivative-operator[D={d},N={nn},L={L_}]", lambda pool, d=d, nn=nn, L_=L_: (sp.build_derivative_operator(d, L_, nn), sp.build_scaled_wavenumbers(d, L_, nn)), ["exponax.spectral"], g)
+                for order in (2, 4):
+                    add(f"laplace-operator[D={d},N={nn},L={L_},order={order}]", lambda pool, d=d, nn=nn, L_=L_, order=order: sp.build_laplace_operator(sp.build_derivative_operator(d, L_, nn), order=order), ["exponax.spectral"], g)
+                for order in (1, 2, 3):
+                    add(f"derivative[D={d},N={nn},L={L_},order={order}]", lambda pool, d=d, nn=nn, L_=L_, order=order: ex.derivative(_field(2, d, nn), L_, order=order), ["exponax.derivative"], g)
+                add(f"poisson[D={d},N={nn},L={L_}]", lambda pool, d=d, nn=nn, L_=L_: (ex.poisson.Poisson(d, L_, nn)(_field(1, d, nn)), ex.poisson.Poisson(d, L_, nn, order=4)(_field(1, d, nn))), ["exponax.poisson"], g)
+            if d > 1:
+                add(f"grid-xy[D={d},N={nn}]", lambda pool, d=d, nn=nn: (ex.make_grid(d, _L, nn, indexing="xy"), sp.build_wavenumbers(d, nn, indexing="xy")), ["exponax.make_grid", "exponax.spectral"], g)
+            add(f"wavenumbers[D={d},N={nn}]", lambda pool, d=d, nn=nn: (sp.build_wavenumbers(d, nn), sp.wavenumber_shape(d, nn), sp.spatial_shape(d, nn)), ["exponax.spectral"], g)
+            add(f"fft-pair[D={d},N={nn}]", lambda pool, d=d, nn=nn: (lambda u: (ex.fft(u, num_spatial_dims=d), ex.ifft(ex.fft(u, num_spatial_dims=d), num_spatial_dims=d, num_points=nn)))(_field(2, d, nn)), ["exponax.fft", "exponax.ifft"], g)
+            for mode in ("norm_compensation", "reconstruction", "coef_extraction"):
+                add(f"scaling-array[D={d},N={nn},{mode}]", lambda pool, d=d, nn=nn, mode=mode: sp.build_scaling_array(d, nn, mode=mode), ["exponax.spectral"], g)
+            for cutoff in sorted({1, 2, nn // 3}):
+                add(f"low-pass-mask[D={d},N={nn},cutoff={cutoff}]", lambda pool, d=d, nn=nn, cutoff=cutoff: (sp.low_pass_filter_mask(d, nn, cutoff=cutoff), sp.oddball_filter_mask(d, nn)), ["exponax.spectral"], g)
+            add(f"fourier-coefficients[D={d},N={nn}]", lambda pool, d=d, nn=nn: sp.get_fourier_coefficients(_field(2, d, nn)), ["exponax.spectral"], g)
+            if d > 1:
+                add(f"make-incompressible[D={d},N={nn}]", lambda pool, d=d, nn=nn: sp.make_incompressible(_field(d, d, nn)), ["exponax.spectral"], g)
+
+        # nonlinear functions, one class and one option set per operation (C03)
+        for nn in ns:
+            for frac in (2 / 3, 0.5):
+
+                def dop(d=d, nn=nn):
+                    return sp.build_derivative_operator(d, _L, nn)
+
+                def uh(c, d=d, nn=nn):
+                    return ex.fft(_field(c, d, nn), num_spatial_dims=d)
+
+                tag = f"D={d},N={nn},frac={frac:.2f}"
+                add(f"nonlin:Convection[{tag}]", lambda pool, d=d, nn=nn, frac=frac, dop=dop, uh=uh: nf.ConvectionNonlinearFun(d, nn, derivative_operator=dop(), dealiasing_fraction=frac)(uh(d)), ["exponax.nonlin_fun.ConvectionNonlinearFun"], g)
+                add(f"nonlin:ConvectionConservative[{tag}]", lambda pool, d=d, nn=nn, frac=frac, dop=dop, uh=uh: nf.ConvectionNonlinearFun(d, nn, derivative_operator=dop(), dealiasing_fraction=frac, conservative=True, single_channel=True)(uh(1)), ["exponax.nonlin_fun.ConvectionNonlinearFun"], g)
+                add(f"nonlin:GradientNorm[{tag}]", lambda pool, d=d, nn=nn, frac=frac, dop=dop, uh=uh: nf.GradientNormNonlinearFun(d, nn, derivative_operator=dop(), dealiasing_fraction=frac)(uh(1)), ["exponax.nonlin_fun.GradientNormNonlinearFun"], g)
+                add(f"nonlin:Polynomial[{tag}]", lambda pool, d=d, nn=nn, frac=frac, uh=uh: nf.PolynomialNonlinearFun(d, nn, dealiasing_fraction=frac, coefficients=(0.0, 1.0, -1.0, 0.5))(uh(1)), ["exponax.nonlin_fun.PolynomialNonlinearFun"], g)
+                add(f"nonlin:General[{tag}]", lambda pool, d=d, nn=nn, frac=frac, dop=dop, uh=uh: nf.GeneralNonlinearFun(d, nn, derivative_operator=dop(), dealiasing_fraction=frac, scale_list=(0.3, -1.0, 0.2))(uh(1)), ["exponax.nonlin_fun.GeneralNonlinearFun"], g)
+                if d == 2:
+                    add(f"nonlin:Vorticity[{tag}]", lambda pool, d=d, nn=nn, frac=frac, dop=dop, uh=uh: nf.VorticityConvection2d(d, nn, derivative_operator=dop(), dealiasing_fraction=frac)(uh(1)), ["exponax.nonlin_fun.VorticityConvection2d"], g)
+                    for mode in (2, 3):
+                        add(f"nonlin:VorticityKolmogorov[{tag},mode={mode}]", lambda pool, d=d, nn=nn, frac=frac, dop=dop, uh=uh, mode=mode: nf.VorticityConvection2dKolmogorov(d, nn, injection_mode=mode, derivative_operator=dop(), dealiasing_fraction=frac)(uh(1)), ["exponax.nonlin_fun.VorticityConvection2dKolmogorov"], g)
+                if d == 3:
+                    add(f"nonlin:Projected3d[{tag}]", lambda pool, d=d, nn=nn, frac=frac, dop=dop, uh=uh: nf.ProjectedConvection3d(d, nn, derivative_operator=dop(), dealiasing_fraction=frac)(uh(3)), ["exponax.nonlin_fun.ProjectedConvection3d"], g, cost=2)
+                    for mode in (2, 1):
+                        add(f"nonlin:Projected3dKolmogorov[{tag},mode={mode}]", lambda pool, d=d, nn=nn, frac=frac, dop=dop, uh=uh, mode=mode: nf.ProjectedConvection3dKolmogorov(d, nn, injection_mode=mode, derivative_operator=dop(), dealiasing_fraction=frac)(uh(3)), ["exponax.nonlin_fun.ProjectedConvection3dKolmogorov"], g, cost=2)
+            if d >= 2:
+                add(f"nonlin:Leray[D={d},N={nn}]", lambda pool, d=d, nn=nn: nf.Leray(d, nn, derivative_operator=sp.build_derivative_operator(d, _L, nn))(ex.fft(_field(d, d, nn), num_spatial_dims=d)), ["exponax.nonlin_fun.Leray"], g)
+
+    # ETDRK integrators one order, one dt, one contour resolution per operation (C02)
+    for order, cls_name in ((0, "ETDRK0"), (1, "ETDRK1"), (2, "ETDRK2"), (3, "ETDRK3"), (4, "ETDRK4")):
+        for dt_ in (_DT, 0.1):
+            for ncp in ((16,) if order == 0 else (16, 32)):
+
+                def _one(pool, order=order, cls_name=cls_name, dt_=dt_, ncp=ncp):
+                    nn = 16
+                    dop = sp.build_derivative_operator(1, _L, nn)
+                    lin = 0.05 * dop**2 - 0.5 * dop
+                    nl = nf.ConvectionNonlinearFun(1, nn, derivative_operator=dop)
+                    cls = getattr(ex.etdrk, cls_name)
+                    integ = cls(dt_, lin) if order == 0 else cls(dt_, lin, nl, num_circle_points=ncp)
+                    return _array_leaves(integ), integ.step_fourier(ex.fft(_field(1, 1, nn), num_spatial_dims=1))
+
+                add(f"etdrk:{cls_name}[dt={dt_},M={ncp}]", _one, [f"exponax.etdrk.{cls_name}"], "etdrk", cost=2)
+    for M in (8, 16, 32):
+        add(f"etdrk:roots_of_unity[M={M}]", lambda pool, M=M: ex.etdrk.roots_of_unity(M), ["exponax.etdrk.roots_of_unity"], "etdrk")
+
+    # forcing (C12): Kolmogorov steppers and the generic vorticity stepper with other forced modes / scales on the same grid
+    for name, dd, variants in (
+        ("stepper.KolmogorovFlowVorticity", 2, ({"injection_mode": 3}, {"injection_mode": 2, "injection_scale": 0.5}, {"injection_mode": 1})),
+        ("stepper.generic.GeneralVorticityConvectionStepper", 2, ({"injection_mode": 3, "injection_scale": 0.5}, {"injection_mode": 2, "injection_scale": 1.0})),
+        ("stepper.KolmogorovFlowVelocity", 3, ({"injection_mode": 1}, {"injection_mode": 2, "injection_scale": 0.5})),
+    ):
+        for kw_ in variants:
+            for nn in _N[dd]:
+                base = _cfg_key(name, dd, nn, {"injection_mode": 2} if "Kolmogorov" in name else {"injection_mode": 2, "injection_scale": 0.5})
+                if base not in {o.group for o in cat.ops.values()}:
+                    base = f"forcing{dd}"
+
+                def mk(name=name, dd=dd, nn=nn, kw_=kw_):
+                    return _resolve(name)(dd, _L, nn, _DT, **kw_)
+
+                tk = _cfg_key(name, dd, nn, dict(kw_, twin="forcing"))
+                add(f"construct:{tk}", lambda pool, mk=mk: _array_leaves(mk()), [f"exponax.{name}"], base, cost=2 if dd == 3 else 1)
+                add(f"eager:{tk}", lambda pool, mk=mk, dd=dd, nn=nn: (lambda s_: s_(_field(s_.num_channels, dd, nn)))(mk()), [f"exponax.{name}"], base, cost=3 if dd == 3 else 2)
+    for v in (0, 1, 2):
+
+        def _forced(pool, v=v):
+            s_ = ex.ForcedStepper(ex.stepper.Diffusion(1, _L, 16, _DT if v < 2 else 0.1))
+            return s_(_field(1, 1, 16), _field(1, 1, 16, 3 + v))
+
+        add(f"forced-step[variant={v}]", _forced, ["exponax.ForcedStepper"], "traj")
+
+    # normalized / difficulty families with other coefficient sets on the same grid, conversion functions one by one (C13)
+    gen = ex.stepper.generic
+    for name, kw_ in (
+        ("stepper.generic.NormalizedLinearStepper", {"normalized_linear_coefficients": (0.0, -0.25, 0.02)}),
+        ("stepper.generic.NormalizedConvectionStepper", {"normalized_convection_scale": 0.05}),
+        ("stepper.generic.NormalizedGradientNormStepper", {"normalized_gradient_norm_scale": 1e-5}),
+        ("stepper.generic.NormalizedPolynomialStepper", {"normalized_polynomial_coefficients": (0.0, 0.0, -0.02)}),
+        ("stepper.generic.NormalizedNonlinearStepper", {"normalized_nonlinear_coefficients": (0.0, -0.05, 0.0)}),
+        ("stepper.generic.DifficultyLinearStepper", {"linear_difficulties": (0.0, -1.0)}),
+        ("stepper.generic.DifficultyConvectionStepper", {"convection_difficulty": 2.5}),
+        ("stepper.generic.DifficultyGradientNormStepper", {"gradient_norm_difficulty": 0.032}),
+        ("stepper.generic.DifficultyPolynomialStepper", {"polynomial_difficulties": (0.0, 0.0, -0.02)}),
+        ("stepper.generic.DifficultyNonlinearStepper", {"nonlinear_difficulties": (0.0, -2.4, 0.0)}),
+        ("stepper.generic.DifficultyLinearStepperSimple", {"difficulty": -1.0}),
+    ):
+        for dd in (1, 2):
+            nn = _N[dd][0]
+            base = _cfg_key(name, dd, nn, {})
+
+            def mk(name=name, dd=dd, nn=nn, kw_=kw_):
+                return _resolve(name)(dd, nn, **kw_)
+
+            tk = f"{name}[D={dd},N={nn},twin:coeff]"
+            add(f"construct:{tk}", lambda pool, mk=mk: _array_leaves(mk()), [f"exponax.{name}"], base)
+            add(f"eager:{tk}", lambda pool, mk=mk, dd=dd, nn=nn: (lambda s_: s_(_field(s_.num_channels, dd, nn)))(mk()), [f"exponax.{name}"], base, cost=2)
+    for i, (L_, dt_, dd, nn) in enumerate(((_L, _DT, 2, 24), (1.0, 0.1, 1, 48), (2.0, 0.01, 3, 16))):
+
+        def _conv(pool, L_=L_, dt_=dt_, dd=dd, nn=nn):
+            coefs = (0.1, -0.4, 0.02, 0.003)
+            nc = gen.normalize_coefficients(coefs, domain_extent=L_, dt=dt_)
+            dc = gen.reduce_normalized_coefficients_to_difficulty(nc, num_spatial_dims=dd, num_points=nn)
+            out = [nc, gen.denormalize_coefficients(nc, domain_extent=L_, dt=dt_), dc, gen.extract_normalized_coefficients_from_difficulty(dc, num_spatial_dims=dd, num_points=nn)]
+            a = gen.normalize_convection_scale(0.7, domain_extent=L_, dt=dt_)
+            b = gen.reduce_normalized_convection_scale_to_difficulty(a, num_spatial_dims=dd, num_points=nn, maximum_absolute=1.5)
+            out += [a, gen.denormalize_convection_scale(a, domain_extent=L_, dt=dt_), b, gen.extract_normalized_convection_scale_from_difficulty(b, num_spatial_dims=dd, num_points=nn, maximum_absolute=1.5)]
+            a = gen.normalize_gradient_norm_scale(0.7, domain_extent=L_, dt=dt_)
+            b = gen.reduce_normalized_gradient_norm_scale_to_difficulty(a, num_spatial_dims=dd, num_points=nn, maximum_absolute=1.5)
+            out += [a, gen.denormalize_gradient_norm_scale(a, domain_extent=L_, dt=dt_), b, gen.extract_normalized_gradient_norm_scale_from_difficulty(b, num_spatial_dims=dd, num_points=nn, maximum_absolute=1.5)]
+            p_ = gen.normalize_polynomial_scales((0.0, 1.0, -2.0), domain_extent=L_, dt=dt_)
+            out += [p_, gen.denormalize_polynomial_scales(p_, domain_extent=L_, dt=dt_)]
+            return [float(x) if not isinstance(x, tuple) else tuple(float(y) for y in x) for x in out]
+
+        add(f"conversions[variant={i}]", _conv, [f"exponax.stepper.generic.{n_}" for n_ in gen.__all__ if n_[0].islower()], "misc")
+
+    # rejection of malformed states and unsupported configurations (C20): the *expected* outcome is an exception;
+    # the operation is judged on "is it still rejected, with the same exception type, in every history"
+    def _expect_raise(fn):
+        def run(pool):
+            fn()
+            return "accepted"
+
+        return run
+
+    for name, dd in (
+        ("stepper.Advection", 1), ("stepper.Diffusion", 2), ("stepper.Burgers", 1), ("stepper.Burgers", 2), ("stepper.KortewegDeVries", 1),
+        ("stepper.KuramotoSivashinsky", 2), ("stepper.reaction.GrayScott", 1), ("stepper.NavierStokesVorticity", 2), ("stepper.Wave", 1),
+        ("stepper.generic.GeneralNonlinearStepper", 1), ("stepper.generic.NormalizedConvectionStepper", 1),
+    ):  # fmt: skip
+        nn = _N[dd][0]
+        normalized = "Normalized" in name or "Difficulty" in name
+        base = _cfg_key(name, dd, nn, {})
+
+        def mk(name=name, dd=dd, nn=nn, normalized=normalized):
+            return _build_stepper(name, dd, nn, {}, normalized)
+
+        add(f"reject:{name}[D={dd},N={nn},extra-channel]", _expect_raise(lambda mk=mk, dd=dd, nn=nn: (lambda s_: s_(_field(s_.num_channels + 1, dd, nn)))(mk())), [f"exponax.{name}"], base)
+        add(f"reject:{name}[D={dd},N={nn},wrong-N]", _expect_raise(lambda mk=mk, dd=dd, nn=nn: (lambda s_: s_(_field(s_.num_channels, dd, nn + 1)))(mk())), [f"exponax.{name}"], base)
+        add(f"reject:{name}[D={dd},N={nn},batch-axis]", _expect_raise(lambda mk=mk, dd=dd, nn=nn: (lambda s_: s_(_field(s_.num_channels, dd, nn)[None]))(mk())), [f"exponax.{name}"], base)
+        add(
+            f"reject:RepeatedStepper({name})[D={dd},N={nn},extra-channel]",
+            _expect_raise(lambda mk=mk, dd=dd, nn=nn: (lambda s_: ex.RepeatedStepper(s_, 2)(_field(s_.num_channels + 1, dd, nn)))(mk())),
+            ["exponax.RepeatedStepper"],
+            base,
+        )
+    add("reject:NavierStokesVorticity[D=1]", _expect_raise(lambda: ex.stepper.NavierStokesVorticity(1, _L, 16, _DT)), ["exponax.stepper.NavierStokesVorticity"], "misc")
+    add("reject:NavierStokesVelocity[D=2]", _expect_raise(lambda: ex.stepper.NavierStokesVelocity(2, _L, 8, _DT)), ["exponax.stepper.NavierStokesVelocity"], "misc")
+    add("reject:GeneralNonlinearStepper[2 coefficients]", _expect_raise(lambda: gen.GeneralNonlinearStepper(1, _L, 16, _DT, nonlinear_coefficients=(0.0, -1.0))), ["exponax.stepper.generic.GeneralNonlinearStepper"], "misc")
+    add("reject:laplace[odd order]", _expect_raise(lambda: sp.build_laplace_operator(sp.build_derivative_operator(1, _L, 16), order=3)), ["exponax.spectral"], "misc")
+    add("reject:GaussianRandomField[std_one+max_one]", _expect_raise(lambda: ex.ic.GaussianRandomField(1, std_one=True, max_one=True)), ["exponax.ic.GaussianRandomField"], "ic1")
+    add("reject:SineWaves1d[offset+std_one]", _expect_raise(lambda: ex.ic.SineWaves1d(_L, (1.0,), (1,), (0.0,), offset=0.5, std_one=True)), ["exponax.ic.SineWaves1d"], "ic1")
+    add("reject:RandomSineWaves1d[D=2]", _expect_raise(lambda: ex.ic.RandomSineWaves1d(2)), ["exponax.ic.RandomSineWaves1d"], "ic1")
+    add("reject:Poisson[wrong shape]", _expect_raise(lambda: ex.poisson.Poisson(1, _L, 16)(_field(1, 1, 15))), ["exponax.poisson"], "misc")
+    add("reject:spatial_norm[normalized without ref]", _expect_raise(lambda: m.spatial_norm(_field(1, 1, 16), mode="normalized")), ["exponax.metrics.spatial_norm"], "misc")
+
     # ---------------------------------------------------------------- initial conditions
     ic = ex.ic
 
